@@ -288,7 +288,8 @@ func vfRunC22(c *vfC22Case) vfC22Outcome {
 		mustAdmit(valid.tx, "first submission of T")
 	}
 	if v := has[clWrapper]; v != nil {
-		w := submission.tx.Clone() // deep copy: CloneTx shares the Signature object with the valid twin
+		w := types.CloneTx(submission.tx) // CloneTx shares the Signature object with the valid twin: copy it deeply
+		w.Signature = &types.Signature{Ty: w.Signature.Ty, Pubkey: append([]byte(nil), w.Signature.Pubkey...), Signature: append([]byte(nil), w.Signature.Signature...)}
 		switch v.Variant {
 		case 0: // wrapper signature bytes tampered
 			if len(w.Signature.Signature) > 9 {
